@@ -355,6 +355,7 @@ struct World
     bool exec_table_op(const Step& s);    // table.cpp (actor T)
     bool exec_foreign_op(const Step& s);  // foreign.cpp (actor F)
     void foreign_forget();
+    void foreign_write_v1(const Step& s, int64_t id, int track_index);
     void audit_table_row(int64_t id, const djinterop::engine::v2::track_row& row, const std::string& op);
     void corrupt_blob(const Step& s, int track_index);
     void corrupt_pages(const Step& s);
